@@ -19,12 +19,27 @@ def pairOf (j : Json) : Str × Str :=
   | _ => ([], [])
 
 def envFileOf (j : Json) : EnvFile :=
-  if getBool j "dir" then .dir else .file ((getArr j "lines").map pairOf)
+  if getBool j "dir" then .dir else .file (getStr j "text").toList
+
+/-- the structured form of an env file made of simple `KEY=VALUE` lines (absent for free-form text) -/
+def linesOf (j : Json) : Option (List (Str × Str)) :=
+  match j.getObjVal? "lines" with
+  | .ok (.arr a) => some (a.toList.map pairOf)
+  | _ => none
 
 def docOf (j : Json) : Option Str :=
   match j.getObjVal? "name" with
   | .ok (.str s) => some s.toList
   | _ => none
+
+def optNat (j : Json) (k : String) : Option Nat :=
+  match j.getObjValAs? Nat k with
+  | .ok n => some n
+  | .error _ => none
+
+def cfgRefOf (j : Json) : CfgRef :=
+  { dir := getNat j "d",
+    file := match j.getObjVal? "f" with | .ok (.str s) => some s.toList | _ => none }
 
 def optOf (j : Json) : Option Opt :=
   match getStr j "op" with
@@ -33,23 +48,39 @@ def optOf (j : Json) : Option Opt :=
   | "osenv" => some .withOsEnv
   | "envfiles" => some (.withEnvFiles ((getStrList j "l").map String.toList))
   | "dotenv" => some .withDotEnv
-  | "workdir" => some (.withWorkDir (getBool j "alt"))
+  | "workdir" => some (.withWorkDir (optNat j "d"))
+  | "cfgenv" => some .withConfigFileEnv
+  | "defcfg" => some .withDefaultConfigPath
   | _ => none
 
+def dirOf (j : Json) : DirNode :=
+  { name := (getStr j "name").toList,
+    parent := optNat j "parent",
+    dotEnv := match j.getObjVal? "dotenv" with
+      | .ok (.obj o) => some (envFileOf (.obj o))
+      | _ => none,
+    files := (getArr j "files").map fun f => match f with
+      | .arr a => (jStr (a.getD 0 .null), match a.getD 1 .null with
+          | .arr docs => docs.toList.map docOf
+          | _ => [])
+      | _ => ([], []) }
+
 def worldOf (a : Json) : World where
-  dir := (getStr a "dir").toList
+  dirs := (getArr a "dirs").map dirOf
+  cwd := getNat a "cwd"
+  given := (getArr a "given").map cfgRefOf
+  paths := (getArr a "paths").map fun p => match p with
+    | .arr x => (jStr (x.getD 0 .null), cfgRefOf (x.getD 1 .null))
+    | _ => ([], { dir := 0, file := none })
   os := (getStrList a "os").map String.toList
-  files := (getArr a "files").map fun f => match f with
-    | .arr docs => docs.toList.map docOf
-    | _ => []
   envFiles := (getArr a "envfiles").map fun f => ((getStr f "n").toList, envFileOf f)
-  dotEnv := match a.getObjVal? "dotenv" with
-    | .ok (.obj o) => some (envFileOf (.obj o))
-    | _ => none
   probe := (getStr a "probe").toList
-  altDir := (getStr a "altdir").toList
-  altDotEnv := match a.getObjVal? "altdotenv" with
-    | .ok (.obj o) => some (envFileOf (.obj o))
+
+/-- structured lines of the env file a reference denotes (spec side) -/
+def specLines (a : Json) : FileRef → Option (List (Str × Str))
+  | .named n => ((getArr a "envfiles").find? fun f => (getStr f "n").toList == n).bind linesOf
+  | .default d => match ((getArr a "dirs").getD d .null).getObjVal? "dotenv" with
+    | .ok (.obj o) => linesOf (.obj o)
     | _ => none
 
 /-- first binding of each key (the visible one), as a JSON object -/
@@ -64,9 +95,10 @@ def errStr : Err → String
   | .invalidName => "invalidName" | .emptyName => "emptyName" | .envNotFound => "envNotFound"
   | .envIsDir => "envIsDir" | .dotenvParse => "dotenvParse" | .interp => "interp"
   | .disableParse => "disableParse" | .panic => "panic"
+  | .configNotFound => "configNotFound" | .configIsDir => "configIsDir" | .noConfig => "noConfig"
 
 def modelJson (w : World) (opts : List Opt) : Json :=
-  match runOpts w opts {} with
+  match runOpts w opts { configs := w.given } with
   | .error e => Json.mkObj [("err", errStr e), ("at", "options")]
   | .ok o =>
     match load w o with
@@ -83,62 +115,102 @@ def decisionJson : Decision → Json
 def isUnder : Opt → Bool
   | .withOsEnv => true | .withDotEnv => true | _ => false
 
-/-- the order the API documents: explicit and OS variables first, env files selected, then `WithDotEnv` last of
-    the environment options; each of `WithOsEnv` / `WithEnvFiles` / `WithDotEnv` at most once -/
+def isCfgOpt : Opt → Bool
+  | .withConfigFileEnv => true | .withDefaultConfigPath => true | _ => false
+
+/-- the order the API documents (README, cmd/main.go): `WithWorkingDirectory` first; explicit and OS variables,
+    env files selected, `WithDotEnv` last of the environment options; then `WithConfigFileEnv` before
+    `WithDefaultConfigPath`; each of these at most once; `WithName` anywhere -/
 def documented (opts : List Opt) : Bool :=
-  let envOpts := opts.filter fun | .withName _ => false | .withWorkDir _ => false | _ => true
-  -- the working directory is chosen before the env files are selected
-  let workdirEarly := (opts.dropWhile fun | .withEnvFiles _ => false | _ => true).all
-    fun | .withWorkDir _ => false | _ => true
+  let rest := opts.filter fun | .withName _ => false | _ => true
+  let wds := rest.takeWhile fun | .withWorkDir _ => true | _ => false
+  let rest := rest.dropWhile fun | .withWorkDir _ => true | _ => false
+  let envOpts := rest.takeWhile (fun x => !isCfgOpt x)
+  let cfgOpts := rest.dropWhile (fun x => !isCfgOpt x)
   let nOs := (envOpts.filter (· == .withOsEnv)).length
   let nDot := (envOpts.filter (· == .withDotEnv)).length
   let nFiles := (envOpts.filter fun | .withEnvFiles _ => true | _ => false).length
-  nOs ≤ 1 && nDot ≤ 1 && nFiles ≤ 1 && workdirEarly &&
-    (nDot == 0 || envOpts.getLast? == some .withDotEnv)
+  wds.length ≤ 1 &&
+  envOpts.all (fun | .withWorkDir _ => false | _ => true) &&
+  nOs ≤ 1 && nDot ≤ 1 && nFiles ≤ 1 &&
+    (nDot == 0 || envOpts.getLast? == some .withDotEnv) &&
+  (cfgOpts == [] || cfgOpts == [.withConfigFileEnv] || cfgOpts == [.withDefaultConfigPath] ||
+    cfgOpts == [.withConfigFileEnv, .withDefaultConfigPath])
 
 /-- spec side of the oracle, computed from the options *syntactically* (no option state machine) -/
-def specJson (w : World) (opts : List Opt) : Json :=
+def specJson (a : Json) (w : World) (opts : List Opt) : Json :=
   -- the explicitly requested name: the last WithName
   let names := opts.filterMap fun | .withName n => some n | _ => none
   let badName := names.any fun n => n ≠ [] && !validName n
   let explicit := names.getLast?.getD []
   let expl := Spec.explicitLayer opts
-  let alt := opts.contains (.withWorkDir true)
-  let pdir := if alt then w.altDir else w.dir
+  let workDir : Option Nat := (opts.filterMap fun | .withWorkDir (some d) => some d | _ => none).getLast?
   let hasOs := opts.contains .withOsEnv
   let hasDot := opts.contains .withDotEnv
   let osL : Env := if hasOs then asEqualsMap w.os else []
-  -- env files selected by the last WithEnvFiles
+  -- the project directory while the environment options run
+  let envDir : Nat := match workDir with
+    | some d => d
+    | none => match w.given with
+      | c :: _ => c.dir
+      | [] => w.cwd
+  -- env files selected by the WithEnvFiles
   let sel := (opts.filterMap fun | .withEnvFiles l => some l | _ => none).getLast?
   let disabled : Option Bool := match (asEqualsMap w.os).get disableKey with
     | some v => (parseBool v)
     | none => some false
   let fileRefs : List FileRef := match sel with
     | none => []
-    | some [] => (match disabled, (if alt then w.altDotEnv else w.dotEnv) with
-        | some false, some (.file _) => [if alt then .defaultAlt else .default]
+    | some [] => (match disabled, (dirNode w envDir).dotEnv with
+        | some false, some (.file _) => [.default envDir]
         | _, _ => [])
     | some l => l.map .named
-  let filesOk := hasDot && fileRefs.all fun r => match lookupFile w r with | some (.file _) => true | _ => false
-  let contents := fileRefs.filterMap fun r => match lookupFile w r with | some (.file ls) => some ls | _ => none
+  let filesOk := hasDot && fileRefs.all fun r =>
+    (match lookupFile w r with | some (.file _) => true | _ => false) && (specLines a r).isSome
+  let contents := fileRefs.filterMap (specLines a)
   let above := expl ++ osL
   let dot : Except Unit (List Env) := if hasDot then Spec.dotenvLayers above contents [] else .ok []
-  let doc := documented opts && (!hasDot || filesOk) && !badName &&
-    (sel != some [] || disabled.isSome)
   match dot with
   | .error _ => Json.mkObj [("documented", Json.bool false), ("badName", Json.bool badName), ("layers", Json.arr #[envJson expl])]
   | .ok dl =>
     let layers := [expl, osL] ++ dl
     let projEnv : Env := layers.flatten
+    -- which compose files: the given ones, else COMPOSE_FILE of the project environment, else the default names
+    let sep : Str := match projEnv.get pathSepKey with
+      | some s => if s = [] then [':'] else s
+      | none => [':']
+    let cfgSel : Except Unit (List CfgRef) :=
+      match w.given with
+      | _ :: _ => .ok w.given
+      | [] =>
+        match (if opts.contains .withConfigFileEnv then projEnv.get composeFileKey else none) with
+        | some f => (match resolvePaths w (splitOn sep f) with | .ok rs => .ok rs | .error _ => .error ())
+        | none =>
+          if opts.contains .withDefaultConfigPath then
+            .ok (searchUp w (w.dirs.length + 1) (match workDir with | some d => d | none => w.cwd))
+          else .ok []
+    let filesR : Except Unit (List (List (Option Str))) := match cfgSel with
+      | .ok cs => (match readConfigs w cs with | .ok fs => .ok fs | .error _ => .error ())
+      | .error _ => .error ()
+    let doc := documented opts && (!hasDot || filesOk) && !badName &&
+      (sel != some [] || disabled.isSome) && (match filesR with | .ok _ => true | .error _ => false)
+    let cfgs : List CfgRef := match cfgSel with | .ok cs => cs | .error _ => []
+    let files : List (List (Option Str)) := match filesR with | .ok fs => fs | .error _ => []
+    let pdirId : Nat := match workDir with
+      | some d => d
+      | none => match cfgs with
+        | c :: _ => c.dir
+        | [] => w.cwd
+    let pdir := (dirNode w pdirId).name
     let src : Spec.Sources := {
       explicit := explicit, fromEnv := projEnv.get cpn,
-      fromFiles := (match Template.subst projEnv.get (Spec.selectedName w.files) with | .ok s => .ok s | _ => .error ()),
+      fromFiles := (match Template.subst projEnv.get (Spec.selectedName files) with | .ok s => .ok s | _ => .error ()),
       dirBase := pdir }
-    let dec := Spec.decide src
+    let dec := if cfgs.isEmpty then Spec.Decision.failed else Spec.decide src
     let fin : List (String × Json) := match dec with
       | .name n =>
         let env : Env := (cpn, n) :: projEnv
-        let ok := match interpAll env (allNames w) with | .ok _ => true | _ => false
+        let ok := match interpAll env (allNames files) with | .ok _ => true | _ => false
         (match ok, Template.subst env.get w.probe with
           | true, .ok p => [("pipelineOk", Json.bool true), ("probe", str p), ("finalEnv", envJson env)]
           | _, _ => [("pipelineOk", Json.bool false)])
@@ -147,6 +219,7 @@ def specJson (w : World) (opts : List Opt) : Json :=
       ("documented", Json.bool doc),
       ("badName", Json.bool badName),
       ("decision", decisionJson dec),
+      ("noConfig", Json.bool cfgs.isEmpty),
       ("candidates", Json.mkObj [
         ("explicit", str explicit),
         ("env", str ((projEnv.get cpn).getD [])),
@@ -158,7 +231,7 @@ def specJson (w : World) (opts : List Opt) : Json :=
 def c17load : Handler := fun args =>
   let w := worldOf args
   let opts := (getArr args "opts").filterMap optOf
-  Json.mkObj [("model", modelJson w opts), ("spec", specJson w opts)]
+  Json.mkObj [("model", modelJson w opts), ("spec", specJson args w opts)]
 
 def c17norm : Handler := fun args =>
   let s := (getStr args "s").toList
